@@ -73,12 +73,17 @@ def ref_arith(op, ka, kb, a, b):
         fn = {"add": "fp.add", "sub": "fp.sub", "mul": "fp.mul", "div": "fp.div"}.get(op)
         if fn is None:
             return None                      # float % (fmod) has no SMT-LIB counterpart
-        return ("Float", f"({fn} {RNE} {as_fp(a)} {as_fp(b)})")
+        x, y = as_fp(a), as_fp(b)
+        if op in ("add", "mul"):
+            x, y = sorted((x, y))            # canonical order for commutative operators (as symex.binop)
+        return ("Float", f"({fn} {RNE} {x} {y})")
     if ka == "Byte" and kb == "Byte":
         w, x, y, signed, var = 8, a.term, b.term, False, "Byte"
     else:
         w, x, y, signed, var = 64, widen(a), widen(b), True, "Integer"
     if op in ("add", "sub", "mul"):
+        if op != "sub":
+            x, y = sorted((x, y))
         return (var, f"(bv{op} {x} {y})")
     if signed:
         special = f"(and (= {x} {bvconst(-(1 << 63), 64)}) (= {y} {bvconst(-1, 64)}))"
@@ -191,7 +196,8 @@ def build_queries(funcs, variants, profile):
             continue
         x, y = "p1_Integer", "p2_Integer"
         amt = f"(bvand {y} {bvconst(63, 64)})"
-        ref = {"bitand": f"(bvand {x} {y})", "bitor": f"(bvor {x} {y})", "bitxor": f"(bvxor {x} {y})",
+        cx, cy = sorted((x, y))
+        ref = {"bitand": f"(bvand {cx} {cy})", "bitor": f"(bvor {cx} {cy})", "bitxor": f"(bvxor {cx} {cy})",
                "shl": f"(bvshl {x} {amt})", "shr": f"(bvashr {x} {amt})"}[op]
         meta = {"function": f.name, "op": op, "kinds": ["Integer", "Integer"], "profile": profile}
         for i, o in enumerate(outs):
